@@ -19,6 +19,7 @@ import (
 	"io"
 	"os"
 	"os/exec"
+	"os/signal"
 	"path/filepath"
 	"regexp"
 	"strings"
@@ -105,6 +106,30 @@ func child(args []string) {
 			}
 			if failAfter >= len(sz) {
 				return errors.New("writer failed")
+			}
+			return nil
+		}, mode)
+		fmt.Printf("ret=%s\n", res(err))
+	case "wfx":
+		// args: old mode limit sizes - the process may not grow a file beyond <limit> bytes (the signal is ignored so that the
+		// write fails with EFBIG instead), and the writer callback ignores what its Write calls return
+		limit := uint64(hx.Atoi(args[4]))
+		signal.Ignore(syscall.SIGXFSZ)
+		if err := syscall.Setrlimit(syscall.RLIMIT_FSIZE, &syscall.Rlimit{Cur: limit, Max: limit}); err != nil {
+			fmt.Printf("ret=setrlimit-failed\n")
+			return
+		}
+		sz := sizes(args[5])
+		total := 0
+		for _, n := range sz {
+			total += n
+		}
+		data := pattern(total)
+		off := 0
+		err := safe.WriteFileWithMode(dest, func(w io.Writer) error {
+			for _, n := range sz {
+				_, _ = w.Write(data[off : off+n])
+				off += n
 			}
 			return nil
 		}, mode)
@@ -202,7 +227,7 @@ func parseTrace(path, dir string) string {
 			}
 		case strings.HasPrefix(call, "write("):
 			fd := strings.TrimPrefix(strings.SplitN(call, ",", 2)[0], "write(")
-			if tempFd[fd] {
+			if tempFd[fd] && ret != "-1" { // a write that fails changes nothing: not part of the compared trace
 				calls = append(calls, "W"+ret)
 			}
 		case strings.HasPrefix(call, "close("):
@@ -327,6 +352,12 @@ func gen(r *hx.Rand, n int) []string {
 	for i := 0; i < n; i++ {
 		old, mode := olds[r.Intn(4)], modes[r.Intn(5)]
 		switch {
+		case i%10 == 4: // a write fault: the file may not grow beyond <limit> bytes and the writer ignores its Write errors
+			if old == "dir" {
+				old = "1"
+			}
+			limit := []int{0, 1, 4096, 65535, 65536, 65537, 70000, 131072, 200000, 400000}[r.Intn(10)]
+			out = append(out, strings.TrimSpace(fmt.Sprintf("wfx %s %s %d %s %s", old, mode, limit, genSizes(r), []string{"", "", "rel", "dot"}[r.Intn(4)])))
 		case i%10 < 5:
 			sz := genSizes(r)
 			fail := "-"
